@@ -22,9 +22,20 @@ import (
 type ringLog struct {
 	lines []string
 	n     int
+	drops map[string]int // session id -> messages the router dropped to it (queue full)
 }
 
+var dropRe = regexp.MustCompile(`^!!! Dropped \S+ to (?:session|caller) (\d+): blocked`)
+
 func (l *ringLog) add(s string) {
+	if strings.HasPrefix(s, "!!! Dropped") {
+		if m := dropRe.FindStringSubmatch(s); m != nil {
+			if l.drops == nil {
+				l.drops = map[string]int{}
+			}
+			l.drops[m[1]]++
+		}
+	}
 	if len(l.lines) < 400 {
 		l.lines = append(l.lines, s)
 	} else {
@@ -227,11 +238,10 @@ func (s *Sess) drain() {
 			case ctlStop:
 				return
 			case ctlStall:
-				s.Stalled = true
-				for s.Stalled {
+				for stalled := true; stalled; {
 					c2 := <-s.ctl
 					if c2 == ctlResume {
-						s.Stalled = false
+						stalled = false
 					} else if c2 == ctlStop {
 						return
 					}
@@ -244,6 +254,7 @@ func (s *Sess) drain() {
 // Stall makes the session stop reading (the unresponsive-client fault).
 func (s *Sess) Stall() {
 	if !s.drainDone && !s.Stalled {
+		s.Stalled = true
 		select {
 		case s.ctl <- ctlStall:
 		case <-s.Dead:
@@ -254,6 +265,7 @@ func (s *Sess) Stall() {
 // Resume lets a stalled session read again.
 func (s *Sess) Resume() {
 	if !s.drainDone && s.Stalled {
+		s.Stalled = false
 		select {
 		case s.ctl <- ctlResume:
 		case <-s.Dead:
